@@ -62,5 +62,38 @@ def selftest():
     # external resolution
     tg = ctx.R.resolve_call(box.methods["global_draw"], ctx.calls_in(box.methods["global_draw"], method="rand")[0][1])
     expect("ext: np.random.rand", tg and tg[0][0] == ("ext", "numpy.random.rand"))
+    # generic lints and value helpers
+    from .engine import deref, flows_into, returns_of, inline_block, fn_name
+    from .core.facts import U
+    L = "fxpkg.lints."
+    expect("truthiness on an optional number: flagged", bool(common.truthiness_uses(P.func(L + "falsy_default"), "bound")))
+    expect("truthiness on an optional number: `is None` is fine", not common.truthiness_uses(P.func(L + "none_default"), "bound"))
+    expect("numeric optional parameters found", common.numeric_optional_params(P.func(L + "falsy_default")) == ["bound"])
+    expect("ascending index deletion: flagged", bool(common.ascending_index_deletion(ctx, P.func(L + "delete_ascending"))))
+    expect("descending index deletion: silent", not common.ascending_index_deletion(ctx, P.func(L + "delete_descending")))
+    fa, fb = P.func(L + "nested"), P.func(L + "with_temporary")
+    va, vb = returns_of(fa)[0].value, returns_of(fb)[0].value
+    expect("deref: h(t) with t = g(a) looks like h(g(a))", fn_name(deref(fb, vb.args[0])) == "g" and fn_name(va.args[0]) == "g")
+    expect("inline_block folds the temporary", U(inline_block(fb.node.body)[-1]) == U(fa.node.body[-1]))
+    fg = P.func(L + "grows")
+    expect("flows_into follows x.extend(src)", flows_into(fg, returns_of(fg)[0].value, lambda y: isinstance(y, ast.Name) and y.id == "src"))
+    kp = P.cls("Keeper")
+    expect("mutation while iterating: flagged", bool(common.mutation_during_iteration(ctx, kp.methods["mutate_while_iterating"])))
+    expect("mutation of a copy: silent", not common.mutation_during_iteration(ctx, kp.methods["mutate_copy"]))
+    # the whole-package rewrites produce programs that parse and are stable under a second application of reformat
+    from .audit import transforms
+    with open(os.path.join(FX, "fxpkg", "lints.py")) as fh:
+        src = fh.read()
+    for how, fn in (("reformat", transforms.reformat), ("swapif", transforms.swap_if), ("flipcmp", transforms.flip_cmp),
+                    ("inline", transforms.inline_temps), ("extract", transforms.extract_args), ("@", lambda s_: transforms.rewrite(s_, "@"))):
+        try:
+            out = fn(src)
+            ast.parse(out)
+            ok = True
+        except Exception as e:  # pragma: no cover
+            ok = False
+        expect(f"transform {how}: output parses", ok)
+    expect("transform inline folds with_temporary", "t = g(a)" not in transforms.inline_temps(src))
+    expect("transform extract names the nested call", "_xt1 = g(a)" in transforms.extract_args(src))
     print("selftest:", "FAILED " + str(fails) if fails else "all passed")
     return 1 if fails else 0
